@@ -4,11 +4,11 @@ package main
 // symbolic arguments) and the branch facts that hold when they execute.
 
 import (
-	"os"
 	"fmt"
 	"go/constant"
 	"go/token"
 	"go/types"
+	"os"
 	"sort"
 	"strings"
 
